@@ -223,33 +223,34 @@ type caseCfg struct {
 }
 
 type ctx struct {
-	r        *ev.Result
-	cc       *caseCfg
-	rng      *rand.Rand
-	dir      string
-	cdir     string
-	sink     *drv.UDPSink
-	closedPt uint16
-	closedRg *rogue
-	gca, dev refenc.Key
-	shortID  uint32
-	rogues   []*rogue
-	replies  [][]byte
-	lists    [][]refenc.AuthServer
-	from     []int
-	selfBan  []bool
-	migr     []bool
-	told     map[[32]byte]bool
-	prevMem  map[[32]byte]bool
-	prevFile map[[32]byte]bool
-	migrated bool
-	env      *drv.ClientEnv
-	latest   uint32
-	rows     string
-	c        *client.Client
-	T0       uint64
-	closed   bool
-	udpWatch map[int]int
+	r           *ev.Result
+	cc          *caseCfg
+	rng         *rand.Rand
+	dir         string
+	cdir        string
+	sink        *drv.UDPSink
+	closedPt    uint16
+	closedRg    *rogue
+	gca, dev    refenc.Key
+	shortID     uint32
+	rogues      []*rogue
+	replies     [][]byte
+	lists       [][]refenc.AuthServer
+	from        []int
+	selfBan     []bool
+	migr        []bool
+	told        map[[32]byte]bool
+	prevMem     map[[32]byte]bool
+	prevFile    map[[32]byte]bool
+	migrated    bool
+	weakPrimary bool // the round just judged adopted a migration order: the weak primary clause applies
+	env         *drv.ClientEnv
+	latest      uint32
+	rows        string
+	c           *client.Client
+	T0          uint64
+	closed      bool
+	udpWatch    map[int]int
 }
 
 func (x *ctx) trace(f string, a ...interface{}) {
@@ -730,6 +731,18 @@ func (x *ctx) checkState(label string, primaryClause bool, file bool) client.Ver
 	if !any {
 		x.r.Count("states_with_every_server_banned", 1)
 	}
+	if !primaryClause && x.weakPrimary {
+		// right after a migration order was adopted (the accepted reply did not ban its own sender): the old
+		// primary is usually no longer in the map at all, which is fine; but a primary that IS in the new map
+		// and is marked banned there is a server the client knows to be banned
+		if p, ok := st.Servers[st.PrimaryServer]; ok && p.Banned && any {
+			x.r.Count("primary_checks_weak", 1)
+			x.r.Violationf("primary-server-banned", x.replay(map[string]interface{}{"label": label, "primary": hex.EncodeToString(st.PrimaryServer[:]), "listed": true, "clause": "weak"}),
+				"%s: the primary server %x is in the client's map and marked banned there although a non-banned server is known", label, st.PrimaryServer[:6])
+		} else {
+			x.r.Count("primary_checks_weak", 1)
+		}
+	}
 	if primaryClause {
 		// unconditional: a banned primary is a violation even when every server is banned
 		// (a blank primary is what the client is left with then, and that is fine)
@@ -819,6 +832,7 @@ func (x *ctx) round(label string) (ok bool, abort bool) {
 	}
 	// 4. state
 	pc := ok && accepted >= 0 && !x.selfBan[accepted] && !x.migrated && quiet
+	x.weakPrimary = ok && accepted >= 0 && !x.selfBan[accepted] && x.migr[accepted] && quiet
 	if ok && accepted >= 0 && x.selfBan[accepted] {
 		x.r.Count("accepted_replies_banning_their_sender", 1)
 	}
